@@ -192,7 +192,42 @@ def run(ctx: Ctx):
         ctx.sample({"env": cname, "row_uniform_keys": sorted(uni), "known_ranks": dict(sorted(ranks.cell_rank.items()))})
     ctx.extra["batch_global_ops_seen"] = n_hits
     ctx.extra["exceptions_used"] = sorted(map(list, used_exceptions))
+    guarded_callees(ctx)
     positive_control(ctx)
+
+
+def guarded_callees(ctx: Ctx):
+    """C04.b -- the 'guarded control' exceptions rely on the callee touching rows only through
+    the row mask it receives.  Checked for FJSPEnv._transit_to_next_time(step_complete, td):
+    the clock is advanced by torch.where(step_complete, candidate, old) and the unmasked
+    per-row candidate flows into no other cell."""
+    env = EnvA(ctx.repo, T.ALL_ENVS["FJSPEnv"], "FJSPEnv")
+    sl = env.slot("_transit_to_next_time")
+    if sl is None or sl.td is None:
+        raise AnalysisError("FJSPEnv._transit_to_next_time not resolved")
+    ctx.fn(sl.fi)
+    t = nf.strip(sl.cell("time"))
+    ok, why, cand = False, "td['time'] is not updated by torch.where(step_complete, candidate, td['time'])", None
+    if nf._fn(t) == "torch.where" and len(t.args) == 4:
+        cond, cand, old = t.args[1:]
+        ok = vg.params_of(cond) == {"step_complete"} and not vg.cells_of(cond) and nf.strip(old).op == "cell0" and nf.strip(old).args[1] == "time"
+        why = f"time' = where({vg.show(cond, 2)}, candidate, {vg.show(old, 2)})"
+    ctx.ob("C04.b", "FJSPEnv._transit_to_next_time:clock-row-masked", ok, sl.where, why, construct="FJSPEnv._transit_to_next_time:clock-mask")
+    if cand is not None:
+        leaks = []
+        for k, v in sorted(sl.td.cells.items()):
+            if k == "time" or (v.op == "cell0" and v.args[1] == k):
+                continue
+            tid = t.id
+            for n in vg.walk(v, stop=lambda n_: n_.id == tid):
+                if n is cand:
+                    leaks.append(k)
+                    break
+        ctx.ob("C04.b", "FJSPEnv._transit_to_next_time:candidate-confined", not leaks, sl.where,
+               ("the unmasked candidate time is consumed only by the row-masked clock update" if not leaks else
+                f"the unmasked per-row candidate `{vg.show(cand, 3)}` also flows into {leaks}: rows that do not advance their clock are changed "
+                f"whenever a batch-mate triggers the transition"),
+               construct="FJSPEnv._transit_to_next_time:candidate-leak:" + ",".join(leaks))
 
 
 def positive_control(ctx: Ctx):
